@@ -103,9 +103,16 @@ Definition enc_cell (c : cell) : list N :=
   else if is_short c then le 2 (N.lor (attr c) SHORT_DATA) ++ [ch c mod 256; fg c mod 256; bg c mod 256; page c mod 256]
   else le 2 (attr c) ++ le 4 (ch c) ++ le 4 (fg c) ++ le 4 (bg c) ++ le 2 (page c).
 
+(* the cell record before the `fix:` commit: the attribute word of an invisible cell was written as it is *)
+Definition enc_cell_before_fix (c : cell) : list N :=
+  if negb (is_visible c) then le 2 (attr c) else enc_cell c.
+
+Section Writer.
+Variable ec : cell -> list N.            (* enc_cell; enc_cell_before_fix only in the refutation lemmas *)
+
 Definition enc_row (L : layer) (y : Z) : list N :=
   let rl := real_length L y in
-  flat_map (fun x => enc_cell (get_char L (Z.of_nat x) y)) (seq 0 rl)
+  flat_map (fun x => ec (get_char L (Z.of_nat x) y)) (seq 0 rl)
   ++ (if (Z.of_nat rl <? lw L)%Z then le 2 INVISIBLE_SHORT else []).
 
 (* `while y < height { if result.len() + width * 16 > MAX { break } … y += 1 }`; [n] = rows still to write, [len] = result.len().
@@ -119,6 +126,8 @@ Fixpoint enc_rows (L : layer) (n : nat) (y : Z) (len : N) : list N * nat :=
     let '(rest, todo) := enc_rows L m (y + 1)%Z (len + N.of_nat (length r)) in
     (r ++ rest, todo)
   end.
+
+End Writer.
 
 Definition role_byte (r : role_t) : N := match r with RImage => 1 | _ => 0 end.
 Definition mode_byte (m : mode_t) : N := match m with MNormal => 0 | MChars => 1 | MAttributes => 2 end.
@@ -136,19 +145,21 @@ Definition enc_header (L : layer) : list N :=
   ++ i32_bytes (lw L) ++ i32_bytes (lh L) ++ le 2 (dfp L).
 
 (* the payload of chunk LAYER_n *)
-Definition encode (L : layer) : res (list N) :=
+Definition encode_with (ec : cell -> list N) (L : layer) : res (list N) :=
   match role L with
   | RImage => Err 8
   | _ =>
     let hd := enc_header L in
     if ((lw L <? 0) && (0 <? lh L))%Z then Panic 3        (* `width as u64 * 16` overflows *)
     else
-    let '(rows, todo) := enc_rows L (Z.to_nat (lh L)) 0%Z (N.of_nat (length hd) + 8) in
+    let '(rows, todo) := enc_rows ec L (Z.to_nat (lh L)) 0%Z (N.of_nat (length hd) + 8) in
     match todo with
     | O => Ok (hd ++ le 8 (N.of_nat (length rows)) ++ rows)
     | S _ => Err 8                                         (* `~k` continuation chunks *)
     end
   end.
+
+Definition encode : layer -> res (list N) := encode_with enc_cell.
 
 (* ---- reader ---- *)
 Definition line_create (w : Z) : list cell := repeat (invisible_cell 0) (Z.to_nat w).     (* Line::create *)
